@@ -580,7 +580,15 @@ pub fn check_mutate_ticks_final(sim: &mut Sim) -> Result<(), Fail> {
         let Some(ticks) = sim.clients[i].app.world().get_resource::<ServerMutateTicks>() else {
             return Err(Fail::new("C12.no_tracker", "ServerMutateTicks resource missing although tracking is enabled".to_string()));
         };
-        let last = ticks.last_tick().get();
+        // newest tick of this session for which a mutate message was handed to the client (by order of sending)
+        let newest = sim.mut_delivered[i].keys().copied().max_by_key(|t| sim.snap_seq.get(t).copied().unwrap_or(0));
+        let Some(last) = newest else { continue };
+        if ticks.last_tick().get() != last {
+            return Err(Fail::new(
+                "C12.last_tick_e2e",
+                format!("client {i}: ServerMutateTicks::last_tick() is {} but the newest tick of this session with an applied mutate message is {last}", ticks.last_tick().get()),
+            ));
+        }
         for (&t, &n) in &sim.mut_sent[i] {
             if last.wrapping_sub(t) >= 64 {
                 continue;
